@@ -74,8 +74,7 @@ pub fn compile(model: &MNode, dump: &Dump, infosets: &[Vec<(&String, &[String])>
             },
             MNode::C { outs, .. } => match d {
                 DumpNode::Chance { infoset, outcomes } if outcomes.len() == outs.len() => {
-                    let tot: f64 = outs.iter().map(|(_, w, _)| *w).sum();
-                    let probs: Vec<f64> = outs.iter().map(|(_, w, _)| *w / tot).collect();
+                    let probs: Vec<f64> = crate::model::normalised(&outs.iter().map(|(_, w, _)| *w).collect::<Vec<_>>());
                     if *infoset >= cp.len() {
                         return Err("chance infoset index out of range".into());
                     }
@@ -172,6 +171,9 @@ struct Ref<'a> {
     cfg: &'a RefCfg,
     ill: Option<&'static str>,
     draws: Vec<Draw>,
+    /// 0: regret += w * (u_a - ev); 1: regret += w * u_a for every action, then -= the weighted
+    /// expectation (both are the documented update; they round differently)
+    order: u8,
 }
 
 fn disc(t: u64, d: f64) -> f64 {
@@ -228,7 +230,9 @@ impl Ref<'_> {
                         eprintln!("PMNZ params={:?} reg={:?} mag={:?} fragile={:?}", self.cfg.params, info.reg, info.mag, fragile);
                     }
                 }
-                // otherwise fragile regrets contribute at most a 1e-11 share: harmless
+                // otherwise fragile regrets contribute at most a 1e-11 share to THIS strategy; whether
+                // they matter downstream (reach exactly 0 versus ~1e-300) is decided by running the
+                // reference in a second legal order of operations, see `reference()`
             } else if !fragile.is_empty() {
                 // no robust positive regret: the sign of the fragile ones picks the branch.
                 // Only one situation is order-independent: the arg-max fallback with a single
@@ -296,6 +300,10 @@ impl Ref<'_> {
             for a in 0..n {
                 info.strat[a] = e[a] / z;
             }
+        }
+        if std::env::var("VERIF_DEBUG_REG").is_ok() {
+            let info = &self.infos[p][i];
+            eprintln!("REG p={p} {} reg={:?} mag={:?} strat={:?} why={why:?}", self.tree.names[p][i], info.reg, info.mag, info.strat);
         }
         if let Some(w) = why {
             self.flag(w);
@@ -415,9 +423,24 @@ impl Ref<'_> {
                 let ev: f64 = utils.iter().zip(&strat).map(|(u, s)| u * s).sum();
                 // counterfactual weight: chance and opponent reach; sign makes it the mover's gain
                 let cf = if *p == 0 { pc * pp[1] } else { -pc * pp[0] };
+                let order = self.order;
                 let info = &mut self.infos[*p][*i];
+                if order == 0 {
+                    for a in 0..kids.len() {
+                        info.reg[a] += cf * (utils[a] - ev);
+                    }
+                } else {
+                    let mut exp = 0.0;
+                    for a in 0..kids.len() {
+                        let u = utils[a] * cf;
+                        exp += u * strat[a];
+                        info.reg[a] += u;
+                    }
+                    for a in 0..kids.len() {
+                        info.reg[a] -= exp;
+                    }
+                }
                 for a in 0..kids.len() {
-                    info.reg[a] += cf * (utils[a] - ev);
                     info.mag[a] += (cf * utils[a]).abs() + (cf * ev).abs();
                 }
                 ev
@@ -445,9 +468,21 @@ impl Ref<'_> {
                     self.infos[*p][*i].visited = true;
                     let utils: Vec<f64> = kids.iter().map(|k| self.ext(k, active)).collect();
                     let ev: f64 = utils.iter().zip(&strat).map(|(u, s)| u * s).sum();
+                    let order = self.order;
                     let info = &mut self.infos[*p][*i];
+                    if order == 0 {
+                        for a in 0..kids.len() {
+                            info.reg[a] += utils[a] - ev;
+                        }
+                    } else {
+                        for a in 0..kids.len() {
+                            info.reg[a] += utils[a];
+                        }
+                        for a in 0..kids.len() {
+                            info.reg[a] -= ev;
+                        }
+                    }
                     for a in 0..kids.len() {
-                        info.reg[a] += utils[a] - ev;
                         info.mag[a] += utils[a].abs() + ev.abs();
                     }
                     ev
@@ -471,7 +506,44 @@ impl Ref<'_> {
     }
 }
 
+/// The documented iterates, computed in two legal orders of operations. A run on which the two
+/// disagree is ill-conditioned by definition (the documentation does not fix the order), and is
+/// reported as such; otherwise the first is returned.
 pub fn reference(tree: &RTree, cfg: &RefCfg) -> RefOut {
+    let mut a = reference_in_order(tree, cfg, 0);
+    if a.ill.is_some() {
+        return a;
+    }
+    let b = reference_in_order(tree, cfg, 1);
+    let mut differs = a.iterations != b.iterations || a.draws.len() != b.draws.len();
+    if !differs {
+        for (x, y) in a.draws.iter().zip(&b.draws) {
+            if x.kind != y.kind || x.vid != y.vid || x.pass != y.pass || x.result != y.result || x.weights.iter().zip(&y.weights).any(|(p, q)| (p - q).abs() > 1e-9) {
+                differs = true;
+                break;
+            }
+        }
+    }
+    if !differs {
+        differs = crate::model::profile_diff(&a.profile, &b.profile).map(|d| d > 1e-8).unwrap_or(true);
+    }
+    if !differs {
+        for p in 0..2 {
+            let (x, y) = (a.bounds[p], b.bounds[p]);
+            if x.is_finite() != y.is_finite() || (x.is_finite() && (x - y).abs() > 1e-7 * x.abs().max(y.abs())) {
+                differs = true;
+            }
+        }
+    }
+    if differs {
+        a.ill = Some("summation-order-sensitive");
+    } else if b.ill.is_some() {
+        a.ill = b.ill;
+    }
+    a
+}
+
+fn reference_in_order(tree: &RTree, cfg: &RefCfg, order: u8) -> RefOut {
     let mk = |p: usize| -> Vec<Info> {
         tree.actions[p]
             .iter()
@@ -497,6 +569,7 @@ pub fn reference(tree: &RTree, cfg: &RefCfg) -> RefOut {
         cfg,
         ill: None,
         draws: vec![],
+        order,
     };
     let mut b = [f64::INFINITY; 2];
     let mut history = vec![];
